@@ -24,7 +24,7 @@ import gen
 from c20_vocab import vocab_category
 
 PROOF_MODULES = ["UnytProofs.C20", "UnytProofs.C20Tab0", "UnytProofs.C20Tab1", "UnytProofs.C20Tab2", "UnytProofs.C20Names",
-                 "UnytProofs.C20Syntax", "UnytProofs.C20Total", "UnytProofs.C20Roundtrip"]
+                 "UnytProofs.C20Syntax", "UnytProofs.C20Total", "UnytProofs.C20Roundtrip", "UnytProofs.C20Arith", "UnytProofs.C20Cache"]
 HERE = os.path.dirname(os.path.abspath(__file__))
 LIMIT = 8.0  # seconds per request on the real parser
 
@@ -176,15 +176,15 @@ def snip_print(s):
 
 
 CHECK = (
-    "def same(u, t):\n"
+    "def same(u, t, tol=1e-12):\n"
     "    v = Unit(t)\n"
     "    f = lambda a, b: a == b or (math.isnan(a) and math.isnan(b)) or math.isclose(a, b, rel_tol=1e-12)\n"
     "    assert v.dimensions == u.dimensions and f(float(v.base_offset), float(u.base_offset)), (u, t, v)\n"
     "    ok = u.base_value == 0 or 1e-290 < abs(u.base_value) < 1e290\n"
     "    logs = [float(p) * math.log10(abs(float(Unit(b).base_value))) for b, p in u.expr.as_coeff_Mul()[1].as_powers_dict().items() if b.is_Symbol and float(Unit(b).base_value) != 0]\n"
     "    ok = ok and sum(x for x in logs if x > 0) < 290 and sum(x for x in logs if x < 0) > -290\n"
-    "    if ok:\n"
-    "        assert f(float(v.base_value), float(u.base_value)) and (math.isnan(u.base_value) or v == u), (u, t, v)\n"
+    "    if ok and tol is not None:\n"
+    "        assert (f(float(v.base_value), float(u.base_value)) or math.isclose(float(v.base_value), float(u.base_value), rel_tol=tol)) and (math.isnan(u.base_value) or v == u), (u, t, v)\n"
     "    import sympy\n"
     "    if u.expr == 1 or not any(f.is_number for f in sympy.Mul.make_args(u.expr)):\n"
     "        assert v.expr == u.expr and hash(v) == hash(u), (u.expr, t, v.expr)\n"
@@ -206,6 +206,12 @@ def arith_py(prog):
             lines.append(f"u = u / Unit({arg!r})")
         elif op == "rdiv":
             lines.append(f"u = Unit({arg!r}) / u")
+        elif op == "mulpow":
+            p, q = arg[1].split("/")
+            lines.append(f"u = u * Unit({arg[0]!r}) ** sympy.Rational({p}, {q})")
+        elif op == "divpow":
+            p, q = arg[1].split("/")
+            lines.append(f"u = u / Unit({arg[0]!r}) ** sympy.Rational({p}, {q})")
         elif op == "powq":
             p, q = arg.split("/")
             lines.append(f"u = u ** sympy.Rational({p}, {q})")
@@ -221,8 +227,8 @@ def arith_py(prog):
     return "\n".join(lines) + "\n"
 
 
-def snip_reparse_arith(prog, which):
-    return PRE + CHECK + arith_py(prog) + f"same(u, {which}(u))\n"
+def snip_reparse_arith(prog, which, tol=1e-12):
+    return PRE + CHECK + arith_py(prog) + f"same(u, {which}(u), {tol!r})\n"
 
 
 def snip_spell(variants):
@@ -456,6 +462,82 @@ def evaluator_faults(rng, G, n):
     while len(out) < base + n:
         out.append(rng.choice(productions(False)))
     return out
+
+
+PRIMES = [2, 3, 5, 7, 11, 13, 97, 101, 499, 503, 997, 1009, 1013, 1999, 2003, 4999, 5003, 65521, 65537, 999983]
+
+DEEP_FIXED = [
+    # exponents that only unit ARITHMETIC reaches: __pow__ rounds its operand, sympy then multiplies / adds exponents exactly
+    [["unit", "m"]] + [["sqrt", ""]] * 20,                                   # m**(1/2**20): twenty ordinary square roots
+    [["unit", "km"]] + [["powf", "0.5"]] * 25,
+    [["unit", "g"], ["mul", "cm"]] + [["sqrt", ""]] * 70,                    # beyond 2**64
+    [["unit", "m"]] + [["powq", "1/3"]] * 13,
+    [["unit", "s"]] + [["powq", "2/3"]] * 40,                                # numerator and denominator beyond 2**53
+    [["unit", "m"], ["powq", "1/1009"], ["powq", "1/1013"]],                 # a root of a root
+    [["unit", "m"], ["powq", "1/1999"], ["div", "s"], ["divpow", ["m", "1/2003"]]],   # co-prime roots: m**(4/4003997)/s
+    [["unit", "kg"], ["mulpow", ["m", "1/999983"]], ["mulpow", ["m", "1/65537"]]],
+    [["unit", "m"], ["powq", "999983/1000003"], ["powq", "65521/65537"]],    # operand beyond the bound: rounded, then exact
+    [["unit", "m"], ["powf", "0.3333333333333333"], ["powf", "0.14285714285714285"], ["powf", "0.09090909090909091"], ["powf", "0.07692307692307693"], ["powf", "0.0101010101010101"], ["powf", "0.3333333333333333"]],
+    [["unit", "J"], ["sqrt", ""], ["powq", "1/3"], ["rdiv", "W"]] + [["sqrt", ""]] * 18,
+    [["unit", "m"], ["powq", "1/1000000"]], [["unit", "m"], ["powq", "1/1000"], ["powq", "1/1001"]], [["unit", "m"], ["powq", "-7/999999"], ["powq", "3/2"]],
+]
+
+
+def deep_programs(rng, atom, n):
+    """random programs of unit operations whose exponents grow beyond any fixed bound: chains of
+    roots, roots of roots, products / quotients of roots with co-prime denominators"""
+    out = []
+    for _ in range(n):
+        prog = [["unit", atom()]]
+        for _ in range(rng.choice([2, 3, 4, 6, 10, 20, 30, 45])):
+            r = rng.random()
+            if r < 0.35:
+                prog.append(rng.choice([["sqrt", ""], ["powf", "0.5"], ["powq", "1/2"], ["powq", "1/3"], ["powf", "0.25"], ["powq", "3/2"], ["powq", "-1/2"]]))
+            elif r < 0.55:
+                a, b = rng.choice(PRIMES), rng.choice(PRIMES)
+                prog.append(["powq", f"{rng.choice([1, 1, -1, a])}/{b}"] if a != b else ["powq", f"1/{b}"])
+            elif r < 0.62:
+                prog.append(["powf", repr(rng.choice([1 / 3, 1 / 7, 2 / 3, 1 / 9, 0.1, 1e-3, 1 / 997, 0.123456789, rng.random()]))])
+            elif r < 0.78:
+                prog.append([rng.choice(["mulpow", "divpow"]), [atom() if rng.random() < 0.5 else prog[0][1], f"{rng.choice([1, -1, 2])}/{rng.choice(PRIMES)}"]])
+            elif r < 0.9:
+                prog.append([rng.choice(["mul", "div"]), atom() if rng.random() < 0.6 else prog[0][1]])
+            else:
+                prog.append(["rdiv", atom()])
+        out.append(prog)
+    return out
+
+
+def model_prog(prog, operands):
+    """wire form of a program for `c20.arith` (None when an operand is not a coefficient-free monomial or
+    the program uses operations outside the exponent model: simplify, coefficients)"""
+    def fstr(ex):
+        if ex is None or Fraction(ex[0]) != 1:
+            return None
+        return ";".join(f"{s}:{gen.rat_str(Fraction(q))}" for s, q in sorted(ex[1].items()))
+    ops = iter(operands)
+    steps, start = [], None
+    for op, arg in prog:
+        if op in ("unit", "mul", "div", "rdiv", "mulpow", "divpow"):
+            f = fstr(next(ops, None))
+            if f is None:
+                return None
+            if op == "unit":
+                start = f
+            elif op in ("mulpow", "divpow"):
+                steps.append(("M=" if op == "mulpow" else "D=") + f + "=" + gen.rat_str(Fraction(arg[1])))
+            else:
+                steps.append({"mul": "m=", "div": "d=", "rdiv": "r="}[op] + f)
+        elif op == "powq":
+            steps.append("p=" + gen.rat_str(Fraction(arg)))
+        elif op == "powf":
+            # `Rational(str(p))` of Unit.__pow__: the rational the shortest decimal text of the float denotes
+            steps.append("p=" + gen.rat_str(Fraction(repr(float(arg)))))
+        elif op == "sqrt":
+            steps.append("p=1/2")
+        else:
+            return None
+    return None if start is None else start + "\t" + "|".join(steps)
 
 
 UNICODE_PAIRS = [("µm", "um"), ("μm", "um"), ("µm", "μm"), ("µs", "us"), ("μF", "uF"), ("Ω", "ohm"), ("kΩ", "kohm"), ("Å", "angstrom"),
@@ -815,7 +897,10 @@ def run(tier, seed):
              [["unit", "lat"], ["coeff", "1/10"], ["powq", "2/1"], ["powf", "0.25"]],
              [["unit", "m"], ["powf", "2.5"]], [["unit", "kg"], ["powf", "-3.5"]], [["unit", "s"], ["powf", "0.1"]], [["unit", "km"], ["powf", "7.25"]],
              [["unit", "m"], ["powf", "0.3333333333333333"]], [["unit", "m"], ["powf", "1e-3"]], [["unit", "m"], ["powf", "12.0"]]]
-    progs = fixed + progs
+    def zatom():
+        a = rng.choice(zero_off)
+        return rng.choice(G.pre) + a if ex["lut"][a][3] and rng.random() < 0.2 else a
+    progs = fixed + DEEP_FIXED + deep_programs(rng, zatom, 250 if quick else 6000) + progs
     with cf.ThreadPoolExecutor(nproc) as tp:
         pparts = [progs[i::nproc] for i in range(nproc)]
         futs = [tp.submit(reals[i].run, [{"k": "arith", "prog": p} for p in pparts[i]]) for i in range(nproc)]
@@ -842,11 +927,17 @@ def run(tier, seed):
             if v != "same":
                 how = v if v.startswith("raises") else "differs"
                 chk.fail(f"reparse|{which}|{how}|{rep['kind']}", f"Unit({which}(u)) for u built by {prog} [{rep[which]!r}]: {v}",
-                         {"python": snip_reparse_arith(prog, which), "prog": prog})
+                         {"python": snip_reparse_arith(prog, which, rep.get("tol", 1e-12)), "prog": prog})
         if rep["expr"] is None:
             chk.count("arith:float-or-irrational-coefficient(model skipped)")
             continue
         c, fac = real_expr(rep["expr"])
+        if any(q.denominator > 10**4 for q in fac.values()):
+            chk.count("arith:long-exponent")
+        mp = model_prog(prog, rep.get("operands", []))
+        if mp is not None:
+            lines.append("c20.arith\t" + mp)
+            idx.append(k)
         lines.append("c20.print\t" + gen.rat_str(c) + "\t" + ";".join(f"{s}:{gen.rat_str(q)}" for s, q in sorted(fac.items())))
         idx.append(k)
         lines.append("c20.layout\t" + gen.rat_str(c) + "\t" + ";".join(f"{s}:{gen.rat_str(q)}" for s, q in sorted(fac.items())))
@@ -860,7 +951,22 @@ def run(tier, seed):
         rep = areps[k]
         c, fac = real_expr(rep["expr"])
         want = f"ok|{gen.rat_str(c)}|" + ";".join(f"{s}:{gen.rat_str(q)}" for s, q in sorted(fac.items()))
-        if line.startswith("c20.print"):
+        if line.startswith("c20.arith"):
+            # the exponent arithmetic of __mul__/__truediv__/__pow__ (operand rounding, exact products and sums)
+            chk.count("model:c20.arith")
+            wantf = ";".join(f"{s}:{gen.rat_str(q)}" for s, q in sorted(fac.items()))
+            if m[0] != "ok" or c != 1 or m[1] != wantf:
+                chk.disagree("c20.arith", f"{progs[k]}: model expression {m[:2]} implementation {rep['expr']}")
+                continue
+            if from_cps(m[2]) != rep["str"] or from_cps(m[3]) != rep["repr"]:
+                chk.disagree("c20.arith", f"{progs[k]}: model str/repr {from_cps(m[2])!r}/{from_cps(m[3])!r} implementation {rep['str']!r}/{rep['repr']!r}")
+                continue
+            for j, which in ((4, "str"), (5, "repr")):
+                if m[j].startswith("err|unmodelled"):
+                    continue
+                if (m[j] == want) != (rep["xs_" + which] is True):
+                    chk.disagree("c20.arith", f"{progs[k]}: re-parse of {which} {rep[which]!r}: model {m[j]} (want {want}) implementation {rep['rt_' + which]}")
+        elif line.startswith("c20.print"):
             chk.count("model:c20.print")
             if m[0] != "ok" or from_cps(m[1]) != rep["str"] or from_cps(m[2]) != rep["repr"]:
                 chk.disagree("c20.print", f"{progs[k]}: model str/repr {from_cps(m[1])!r}/{from_cps(m[2])!r} implementation {rep['str']!r}/{rep['repr']!r}")
@@ -877,6 +983,136 @@ def run(tier, seed):
             chk.count("model-only:c20.layout(lexer/evaluator self-consistency, not a tie to the code)")
             if m[0] != "ok" or m[1] != want or (m[2] != want and not m[2].startswith("err|unmodelled")) or m[3] != "1":
                 chk.disagree("c20.layout", f"{progs[k]}: layout round trip broken in the model: {m} (want {want})")
+
+    # ------------------------------------------------------------------ histories on one registry: the unit-object cache
+    def variants(t):
+        vs = [t, t, " " + t, t + " ", t.replace("*", " * "), t.swapcase(), t.lower(), t.upper(), t.replace("µ", "μ").replace("u", "μ", 1),
+              t.replace("m", "M", 1), t.replace("k", "K", 1), t.replace("P", "p", 1), t.strip("()"), "(" + t + ")"]
+        return rng.choice(vs)
+
+    FAILING = ["m**", "zz", "(m", "m)", "zz*m", "m**zz", "m/", "2m"]
+    hist_fixed = [
+        [["s", "m"], ["s", "m"], ["b", list(b"m")], ["w", "m"], ["s", "m**"], ["s", "m**"], ["c", ""], ["w", "m"], ["s", "m"], ["s", " m"], ["b", [255]]],
+        [["s", "mm"], ["s", "Mm"], ["s", "MM"], ["s", "mM"], ["s", "Pa"], ["s", "pA"], ["s", "PA"], ["s", "pa"]],                # keys differing in case only
+        [["s", "km/s"], ["s", "km / s"], ["s", " km/s"], ["s", "km/s "], ["s", "(km/s)"], ["s", "km/s"], ["s", "km*s**-1"]],  # … in spacing only
+        [["s", "µm"], ["s", "μm"], ["s", "um"], ["b", list("µm".encode())], ["s", "Ω"], ["s", "ohm"], ["s", "Ω"]],       # … in spelling only
+        [["w", "km"], ["s", "km"], ["w", "km"], ["c", ""], ["s", "km"]],                                                          # data handed in is never stored
+        [["s", "zz"], ["s", "zz"], ["s", "m"], ["s", "zz*m"], ["s", "m"], ["s", ""], ["s", ""], ["s", " "], ["s", "1"], ["s", "dimensionless"]],
+        [["s", "degC"], ["s", "degc"], ["s", "DEGC"], ["s", "°C"], ["s", "degC"], ["s", "%"], ["s", "percent"]],
+        [["s", "m"], ["s", "s"], ["s", "m*s"], ["s", "s*m"], ["s", "m"], ["c", ""], ["s", "s*m"], ["s", "m*s"]],
+    ]
+    hists = list(hist_fixed)
+    for _ in range(200 if quick else 4000):
+        pool = [rng.choice(valid) for _ in range(rng.randint(1, 3))] + [rng.choice(G.atoms), rng.choice(FAILING)]
+        h = []
+        for _ in range(rng.randint(3, 12)):
+            t = variants(rng.choice(pool))
+            r = rng.random()
+            if r < 0.7:
+                h.append(["s", t])
+            elif r < 0.8:
+                h.append(["b", list(t.encode("utf-8"))])
+            elif r < 0.92:
+                h.append(["w", t])
+            else:
+                h.append(["c", ""])
+        hists.append(h)
+    hrep = reals[0].run([{"k": "history", "calls": h} for h in hists])
+
+    def hist_py(h, upto):
+        lines = ["from unyt.unit_registry import UnitRegistry", "from unyt import dimensions", "reg = UnitRegistry()",
+                 "def make(kind, arg, reg):", "    if kind == 'w':", "        return Unit(arg, base_value=2.5, dimensions=dimensions.length, registry=reg)",
+                 "    return Unit(bytes(arg) if kind == 'b' else arg, registry=reg)",
+                 "def facts(kind, arg, reg):", "    try:", "        u = make(kind, arg, reg)", "    except Exception as e:", "        return type(e).__name__",
+                 "    return (str(u.expr), str(u.dimensions), round(float(u.base_offset), 9), '%.9e' % float(u.base_value))",
+                 f"calls = {h[:upto + 1]!r}", "n = 0", "for kind, arg in calls[:-1]:", "    if kind == 'c':", "        n += 1", "        reg.add('c20aux%d' % n, 1.0, dimensions.length)",
+                 "    else:", "        facts(kind, arg, reg)", "kind, arg = calls[-1]", "got = facts(kind, arg, reg)", "want = facts(kind, arg, UnitRegistry())",
+                 "assert got == want, ('Unit(...) depends on what the registry was asked before', calls, got, want)"]
+        return PRE + "\n".join(lines) + "\n"
+
+    hlines, hidx = [], []
+    for k, (h, rep) in enumerate(zip(hists, hrep)):
+        chk.case(("history", json.dumps(h)), {"history": h[:5]} if k == len(hist_fixed) else None)
+        if rep.get("r") != "history":
+            chk.count(f"history:{rep.get('r')}")
+            if rep.get("r") == "hang":
+                chk.fail("hang|history", f"history {h} did not return", {"python": snip_hang(h[0][1] if isinstance(h[0][1], str) else "m")})
+            continue
+        chk.count("history:ok")
+        for j, ((kind, arg), d) in enumerate(zip(h, rep["calls"])):
+            chk.count(f"history-call:{kind}:{d['o']}")
+            # DIRECT ORACLE (plain string / bytes calls): the answer must not depend on the history of the registry
+            if kind in ("s", "b") and d.get("vs_fresh", "same") != "same":
+                chk.fail(f"cache|history-dependent|{d['vs_fresh']}", f"call {j} of history {h}: Unit({arg!r}, registry=reg) differs from the same call on an unused registry in {d['vs_fresh']}",
+                         {"python": hist_py(h, j), "history": h})
+        def wire(kind, arg):
+            if kind == "c":
+                return "c"
+            if kind == "b":
+                return "b=" + ",".join(map(str, arg))
+            return kind + "=" + cps(arg)
+        if any(kind in ("s", "w") and (any(0xD800 <= ord(c) <= 0xDFFF for c in arg) or vocab_category(arg) is not None) for kind, arg in h):
+            chk.count("history:text-outside-vocabulary(model skipped)")
+            continue
+        hlines.append("c20.history\t" + "|".join(wire(kind, arg) for kind, arg in h))
+        hidx.append(k)
+    try:
+        hm = core.Model("drv_c20").ask(hlines)
+    except Exception as e:  # noqa: BLE001
+        hm = []
+        chk.disagree("driver", repr(e))
+    for k, m in zip(hidx, hm):
+        h, rep = hists[k], hrep[k]
+        chk.count("model:c20.history")
+        if m[0] != "ok" or len(m) != len(h) + 2:
+            chk.disagree("c20.history", f"{h}: model reply {m[:3]}")
+            continue
+        if any(x.startswith("E|err|") and x[6:] in ("unmodelled", "outOfVocabulary", "hang") for x in m[1:-1]):
+            chk.count("history:model-outside-its-domain(skipped)")
+            continue
+        okay = True
+        for j, ((kind, arg), d, x) in enumerate(zip(h, rep["calls"], m[1:-1])):
+            if x[0] != d["o"]:
+                chk.disagree("c20.history", f"call {j} of {h}: model {x[:40]} implementation {d['o']} ({d.get('exc')})")
+                okay = False
+                break
+            if d["o"] == "E" and not (x == "E|err|UnitParseError" and d["exc"] == "UnitParseError"):
+                chk.disagree("c20.history", f"call {j} of {h}: model {x} implementation raises {d['exc']}")
+                okay = False
+                break
+            if d["o"] in ("H", "B") and d["expr"] is not None:
+                c, fac = real_expr(d["expr"])
+                want = f"{d['o']}|ok|{gen.rat_str(c)}|" + ";".join(f"{s}:{gen.rat_str(q)}" for s, q in sorted(fac.items()))
+                if x != want:
+                    chk.disagree("c20.history", f"call {j} of {h}: model {x} implementation {want}")
+                    okay = False
+                    break
+        if okay and int(m[-1]) != rep["cached"]:
+            chk.disagree("c20.history", f"{h}: {rep['cached']} texts cached at the end, model {m[-1]}")
+
+    # ------------------------------------------------------------------ limit_denominator: the model's loop against CPython's / sympy's
+    import sympy
+
+    ld_cases = [(10**6, Fraction(1, 1048576)), (10**6, Fraction(4, 4003997)), (10**6, Fraction(1, 10**6)), (10**6, Fraction(1, 10**6 + 1)), (1, Fraction(1, 2)),
+                (1, Fraction(3, 2)), (1, Fraction(-1, 2)), (10, Fraction("3.141592653589793")), (10**6, Fraction(repr(1 / 3)))]
+    for _ in range(400 if quick else 8000):
+        k = rng.choice([3, 7, 12, 17, 25])
+        x = Fraction(rng.randint(-10**k, 10**k), rng.randint(1, 10**k))
+        if rng.random() < 0.25:
+            x = Fraction(repr(rng.random() * rng.choice([1, 10, 0.001])))
+        ld_cases.append((rng.choice([1, 2, 3, 10, 1000, 10**6, 10**6, 10**6, 10**9]), x))
+    try:
+        lm = core.Model("drv_c20").ask([f"c20.limden\t{B}\t{gen.rat_str(x)}" for B, x in ld_cases])
+    except Exception as e:  # noqa: BLE001
+        lm = []
+        chk.disagree("driver", repr(e))
+    for (B, x), m in zip(ld_cases, lm):
+        chk.case(("limden", B, str(x)))
+        chk.count("model:c20.limden")
+        w = sympy.Rational(x.numerator, x.denominator).limit_denominator(B)
+        w = Fraction(int(w.p), int(w.q))
+        if m[0] != "ok" or Fraction(m[1]) != w or w != x.limit_denominator(B):
+            chk.disagree("c20.limden", f"limit_denominator({x}, {B}): model {m}, sympy {w}, fractions {x.limit_denominator(B)}")
 
     # ------------------------------------------------------------------ equivalent spellings
     spell_cases = []
